@@ -293,7 +293,9 @@ def _pairing_run(fx, path, args, extra=None):
                 return True
             return False
         return bitlin.transfer(I, fr, t, c, pth)
-    I = exp.Interp(fx, 'none', extra_transfer=tr, max_steps=200000)
+    import inline as INL
+    I = exp.Interp(fx, 'none', extra_transfer=tr, max_steps=200000, inline=lambda q: INL.is_private_helper(fx, q))
+    I.fork_inlined = True
     res = I.run(path, args, extra=extra)
     res = [r for r in res if not (isinstance(r[1], tuple) and r[1] and r[1][0] == 'diverges')]
     return I, res
